@@ -110,19 +110,21 @@ Qed.
 
 Lemma ctr_opens : forall ls,
   s_ctr (final ls) = 1 + Z.of_nat (length (opens (trace ls))) /\
-  forall n, 1 <= n < s_ctr (final ls) -> exists t, In (t, n) (opens (trace ls)).
+  (forall n, 1 <= n < s_ctr (final ls) -> exists t, In (t, n) (opens (trace ls))) /\
+  (forall t n, In (t, n) (opens (trace ls)) -> 1 <= n).
 Proof.
-  induction ls using rev_ind; [split; [reflexivity|simpl; intros; lia]|].
-  destruct IHls as [IH1 IH2]. rewrite trace_snoc, final_snoc.
+  induction ls using rev_ind; [split; [reflexivity|split; simpl; intros; [lia|contradiction]]|].
+  destruct IHls as (IH1 & IH2 & IH3). rewrite trace_snoc, final_snoc.
   destruct x as [c| |t|t|t|t];
-    try (rewrite opens_snoc_other, step_ctr_other by (intros; discriminate); split; assumption).
+    try (rewrite opens_snoc_other, step_ctr_other by (intros; discriminate); repeat split; assumption).
   cbn -[Z.add Z.of_nat length opens]. destruct (s_map (final ls) t); [destruct (s_open (final ls) t)|];
     cbn -[Z.add Z.of_nat length opens];
-    try (rewrite opens_app; cbn -[Z.add Z.of_nat length]; rewrite app_nil_r; split; assumption).
-  rewrite opens_app, app_length. cbn -[Z.add Z.of_nat]. split; [lia|].
-  intros n Hn. destruct (Z.eq_dec n (s_ctr (final ls))) as [->|Hne].
-  - exists t. apply in_or_app. right. left. reflexivity.
-  - destruct (IH2 n) as [t' Ht']; [lia|]. exists t'. apply in_or_app. left. assumption.
+    try (rewrite opens_app; cbn -[Z.add Z.of_nat length]; rewrite app_nil_r; repeat split; assumption).
+  rewrite opens_app, app_length. cbn -[Z.add Z.of_nat]. split; [lia|]. split.
+  - intros n Hn. destruct (Z.eq_dec n (s_ctr (final ls))) as [->|Hne].
+    + exists t. apply in_or_app. right. left. reflexivity.
+    + destruct (IH2 n) as [t' Ht']; [lia|]. exists t'. apply in_or_app. left. assumption.
+  - intros t' n Hin. apply in_app_or in Hin. destruct Hin as [Hin|[Hin|[]]]; [eauto|]. inversion Hin; subst. lia.
 Qed.
 
 (** ---- an opened prompt is closed or still open *)
@@ -170,4 +172,190 @@ Proof.
         -- left. apply in_or_app. right. left. unfold exec_prompts. simpl. congruence.
         -- right. unfold upd. destruct (Z.eqb_spec t t0); [contradiction|assumption].
       * rewrite app_nil_r. auto.
+Qed.
+
+(** ---- under [no_future_queued]: an answer to an open prompt stays queued *)
+
+Lemma no_future_snoc tr e : no_future_queued (tr ++ [e]) -> no_future_queued tr.
+Proof.
+  intros H pre i post c E Hn. apply (H pre i (post ++ [e]) c).
+  - rewrite E, <- app_assoc. reflexivity.
+  - rewrite sends_app. apply nth_error_app_some. assumption.
+Qed.
+
+Lemma in_relayed_split : forall tr i, In i (relayed tr) -> exists pre post, tr = pre ++ (Relay, ORelayed i) :: post.
+Proof.
+  induction tr as [|[l o] tr IH]; simpl; intros i H; [contradiction|].
+  assert (Hrec : In i (relayed tr) -> exists pre post, (l, o) :: tr = pre ++ (Relay, ORelayed i) :: post).
+  { intros Hin. destruct (IH _ Hin) as (pre & post & ->). exists ((l, o) :: pre), post. reflexivity. }
+  destruct l; auto. destruct o; auto. destruct H as [->|H]; auto. exists [], tr. reflexivity.
+Qed.
+
+Lemma relayed_number_issued ls i c :
+  no_future_queued (trace ls) -> In i (relayed (trace ls)) -> nth_error (sends (trace ls)) i = Some c ->
+  c_prompt c < s_ctr (final ls).
+Proof.
+  intros H Hin Hn. destruct (in_relayed_split _ _ Hin) as (pre & post & E).
+  pose proof (H pre i post c E Hn) as Hlt. rewrite (proj1 (ctr_opens ls)), E, opens_app, app_length. lia.
+Qed.
+
+Lemma relayed_was_sent ls i : In i (relayed (trace ls)) -> exists c, nth_error (sends (trace ls)) i = Some c.
+Proof.
+  intros H. pose proof (Inv_reach ls) as I. apply (i_relayed_lt _ _ I) in H.
+  assert (Hlt : (i < length (sends (trace ls)))%nat).
+  { rewrite <- (i_nsent _ _ I). pose proof (between_le _ _ _ (i_in_sorted _ _ I)). lia. }
+  destruct (nth_error (sends (trace ls)) i) eqn:E; eauto. apply nth_error_None in E. lia.
+Qed.
+
+Definition holds_answers (tr : list ev) (s : state) : Prop :=
+  forall t n i c, s_open s t = Some n -> In i (relayed tr) -> nth_error (sends tr) i = Some c ->
+                  c_trace c = t -> c_prompt c = n ->
+                  exists q, s_map s t = Some q /\ In (i, c) q.
+
+Lemma retained : forall ls, no_future_queued (trace ls) -> holds_answers (trace ls) (final ls).
+Proof.
+  induction ls using rev_ind; intros NF; [intros t n i c H; discriminate|].
+  rewrite trace_snoc, final_snoc in *.
+  pose proof (no_future_snoc _ _ NF) as NF0. specialize (IHls NF0).
+  pose proof (Inv_reach ls) as I. set (s := final ls) in *. set (tr := trace ls) in *.
+  intros t n i c Ho Hr Hn Ht Hp.
+  destruct x as [c0| |t0|t0|t0|t0].
+  - (* Send *)
+    simpl in *. rewrite relayed_app in Hr. simpl in Hr. rewrite app_nil_r in Hr.
+    destruct (relayed_was_sent ls i Hr) as (c' & Hc'). fold tr in Hc'.
+    rewrite sends_app in Hn. rewrite (nth_error_app_some _ _ _ _ Hc') in Hn. inversion Hn; subst c'.
+    apply (IHls t n i c Ho Hr Hc' Ht Hp).
+  - (* Relay *)
+    simpl in *. destruct (s_in s) as [|[i0 c0] r] eqn:Ein.
+    + simpl in *. rewrite relayed_app, sends_app in *. simpl in *. rewrite app_nil_r in *. eapply IHls; eauto.
+    + assert (Hc0 : nth_error (sends tr) i0 = Some c0) by (apply (i_in_nth _ _ I); rewrite Ein; left; reflexivity).
+      destruct (s_map s (c_trace c0)) as [q0|] eqn:Em0; simpl in *;
+        rewrite relayed_app, sends_app in *; simpl in *; rewrite ?app_nil_r in *.
+      * apply in_app_or in Hr. destruct Hr as [Hr|[<-|[]]].
+        -- destruct (IHls t n i c Ho Hr Hn Ht Hp) as (q & Hq & Hin). unfold upd.
+           destruct (Z.eqb_spec t (c_trace c0)).
+           ++ rewrite e, Em0 in Hq. inversion Hq; subst q0. eexists. split; [reflexivity|]. apply in_or_app. auto.
+           ++ eauto.
+        -- assert (c = c0) by congruence. subst c. unfold upd. rewrite <- Ht, Z.eqb_refl.
+           eexists. split; [reflexivity|]. apply in_or_app. right. left. reflexivity.
+      * eapply IHls; eauto.
+  - (* StartTrace *)
+    simpl in *. destruct (s_map s t0) eqn:Em0; simpl in *;
+      rewrite relayed_app, sends_app in *; simpl in *; rewrite ?app_nil_r in *; [eapply IHls; eauto|].
+    destruct (IHls t n i c Ho Hr Hn Ht Hp) as (q & Hq & Hin). exists q. split; auto.
+    unfold upd. destruct (Z.eqb_spec t t0); [congruence|assumption].
+  - (* EndTrace *)
+    simpl in *. destruct (s_map s t0) eqn:Em0; [destruct (s_open s t0) eqn:Eo0|]; simpl in *;
+      rewrite relayed_app, sends_app in *; simpl in *; rewrite ?app_nil_r in *; try solve [eapply IHls; eauto].
+    destruct (IHls t n i c Ho Hr Hn Ht Hp) as (q & Hq & Hin). exists q. split; auto.
+    unfold upd. destruct (Z.eqb_spec t t0); [congruence|assumption].
+  - (* OpenPrompt *)
+    simpl in *. destruct (s_map s t0) eqn:Em0; [destruct (s_open s t0) eqn:Eo0|]; simpl in *;
+      rewrite relayed_app, sends_app in *; simpl in *; rewrite ?app_nil_r in *; try solve [eapply IHls; eauto].
+    unfold upd in Ho. destruct (Z.eqb_spec t t0); [|eapply IHls; eauto].
+    inversion Ho; subst. exfalso.
+    pose proof (relayed_number_issued ls i c NF0 Hr Hn). fold s in H. lia.
+  - (* Take *)
+    simpl in *. destruct (s_open s t0) as [p|] eqn:Eo0; simpl in *;
+      [|rewrite relayed_app, sends_app in *; simpl in *; rewrite ?app_nil_r in *; eapply IHls; eauto].
+    destruct (s_map s t0) as [[|[j d] r]|] eqn:Em0; simpl in *;
+      try (rewrite relayed_app, sends_app in *; simpl in *; rewrite ?app_nil_r in *; solve [eapply IHls; eauto]).
+    assert (Hd : c_trace d = t0) by (apply (i_q _ _ I t0 _ j d Em0); left; reflexivity).
+    rewrite Hd, Z.eqb_refl in *. simpl in *.
+    destruct (Z.eqb_spec (c_prompt d) p); simpl in *;
+      rewrite relayed_app, sends_app in *; simpl in *; rewrite ?app_nil_r in *.
+    + unfold upd in *. destruct (Z.eqb_spec t t0); [discriminate|]. eapply IHls; eauto.
+    + destruct (IHls t n i c Ho Hr Hn Ht Hp) as (q & Hq & Hin). unfold upd.
+      destruct (Z.eqb_spec t t0); [|eauto].
+      rewrite e in Hq, Ho. rewrite Em0 in Hq. inversion Hq; subst q. rewrite Eo0 in Ho. inversion Ho; subst p.
+      destruct Hin as [Hin|Hin]; [inversion Hin; subst; contradiction|]. eauto.
+Qed.
+
+Lemma first_match : forall (q : list icmd) n i c, In (i, c) q -> c_prompt c = n ->
+  exists front j cj back, q = front ++ (j, cj) :: back /\ c_prompt cj = n /\
+                          forall j' d, In (j', d) front -> c_prompt d <> n.
+Proof.
+  induction q as [|[j d] q IH]; intros n i c Hin Hp; [contradiction|].
+  destruct (Z.eq_dec (c_prompt d) n) as [E|E].
+  - exists [], j, d, q. repeat split; auto. intros ? ? [].
+  - destruct Hin as [Hin|Hin]; [inversion Hin; subst; contradiction|].
+    destruct (IH n i c Hin Hp) as (front & j1 & c1 & back & -> & H1 & H2).
+    exists ((j, d) :: front), j1, c1, back. repeat split; auto.
+    intros j' d' [H|H]; [inversion H; subst; assumption|eauto].
+Qed.
+
+(** whole runs, under [no_future_queued]: a prompt that is open and for which an
+    answer has been relayed closes after at most (length of its queue) further
+    iterations of its loop, by a command carrying exactly its numbers; the
+    iterations before only discard commands with other numbers; no other trace
+    is touched *)
+Theorem answered_prompt_closes : forall ls t n i c,
+  no_future_queued (trace ls) ->
+  s_open (final ls) t = Some n ->
+  In i (relayed (trace ls)) -> nth_error (sends (trace ls)) i = Some c ->
+  c_trace c = t -> c_prompt c = n ->
+  exists q front j cj back tail,
+    s_map (final ls) t = Some q /\ q = front ++ (j, cj) :: back /\
+    c_trace cj = t /\ c_prompt cj = n /\ (forall j' d, In (j', d) front -> c_prompt d <> n) /\
+    let ls' := ls ++ repeat (Take t) (S (length front)) in
+    trace ls' = trace ls ++ tail /\
+    map snd tail = map (discard_out n) front ++ [OExec n j cj] /\
+    s_open (final ls') t = None /\ In n (exec_prompts (trace ls')) /\
+    frame t (final ls) (final ls').
+Proof.
+  intros ls t n i c NF Ho Hr Hn Ht Hp.
+  destruct (retained ls NF t n i c Ho Hr Hn Ht Hp) as (q & Hq & Hin).
+  destruct (first_match q n i c Hin Hp) as (front & j & cj & back & E & Hcj & Hfront).
+  assert (Htj : c_trace cj = t).
+  { apply (i_q _ _ (Inv_reach ls) t q j cj Hq). rewrite E. apply in_or_app. right. left. reflexivity. }
+  rewrite E in Hq.
+  destruct (genuine_answer_executed ls t n front j cj back Ho Hq Hcj Hfront) as (tail & A & B & C' & D & F & G).
+  exists (front ++ (j, cj) :: back), front, j, cj, back, tail. repeat split; auto; try apply G.
+  rewrite A, exec_prompts_app. apply in_or_app. right.
+  clear - B C'. revert B C'. generalize (S (length front)). generalize (map (discard_out n) front).
+  induction tail as [|[l o] tail IH]; intros outs k B C'.
+  - destruct outs; discriminate.
+  - destruct k; [discriminate|]. simpl in B, C'. inversion B; subst l. destruct outs as [|o1 outs]; simpl in C'.
+    + inversion C'; subst. left. reflexivity.
+    + inversion C'; subst. unfold exec_prompts in *. simpl.
+      assert (In n (map (fun e : Z * Z * nat * cmd => snd (fst (fst e))) (execs tail))) by (eapply IH; eauto).
+      destruct o1; auto. right. assumption.
+Qed.
+
+Lemma nodup_app_disjoint {A} (a b : list A) x : NoDup (a ++ b) -> In x a -> In x b -> False.
+Proof.
+  induction a as [|y a IH]; simpl; intros Hnd Ha Hb; [contradiction|].
+  inversion Hnd; subst. destruct Ha as [->|Ha]; [apply H1; apply in_or_app; auto|eauto].
+Qed.
+
+(** under [no_future_queued] every executed command reached its trace's queue
+    while the prompt it closes was already open *)
+Theorem executed_arrived_while_open : forall ls pre1 i mid t n c post,
+  no_future_queued (trace ls) ->
+  trace ls = pre1 ++ (Relay, ORelayed i) :: mid ++ (Take t, OExec n i c) :: post ->
+  open_in pre1 t = Some n.
+Proof.
+  intros ls pre1 i mid t n c post NF E.
+  assert (E' : trace ls = (pre1 ++ (Relay, ORelayed i) :: mid) ++ (Take t, OExec n i c) :: post)
+    by (rewrite E, <- app_assoc; reflexivity).
+  destruct (exec_is_addressed _ _ _ _ _ _ _ E') as (Hn & _ & Ht & Hp & _ & _).
+  pose proof (NF pre1 i _ c E Hn) as Hlt.
+  destruct (trace_prefix _ _ _ _ E) as (l1 & l2 & Hls & Hpre). fold (trace l1) in Hpre.
+  destruct (ctr_opens l1) as (C1 & C2 & C3). rewrite <- Hpre in *.
+  pose proof (Inv_reach ls) as I.
+  assert (Hop : In (t, n) (opens (trace ls))).
+  { apply (i_execs _ _ I t n i c). rewrite E', execs_app. apply in_or_app. right. left. reflexivity. }
+  assert (Hge : 1 <= n) by (destruct (ctr_opens ls) as (_ & _ & G); eauto).
+  destruct (C2 n) as (t' & Ht'); [rewrite C1, Hp in *; lia|].
+  assert (t' = t).
+  { eapply nodup_snd_inj; [apply (i_opens_nodup _ _ I)| |exact Hop].
+    rewrite E, opens_app. apply in_or_app. left. assumption. }
+  subst t'.
+  rewrite Hpre in Ht'. destruct (opened_closed_or_open l1 t n Ht') as [Hc|Hc].
+  - exfalso. pose proof (i_exec_prompts _ _ I) as Hnd. rewrite E, exec_prompts_app in Hnd.
+    eapply nodup_app_disjoint; [exact Hnd|rewrite Hpre; exact Hc|].
+    change ((Relay, ORelayed i) :: mid ++ (Take t, OExec n i c) :: post)
+      with ([(Relay, ORelayed i)] ++ mid ++ (Take t, OExec n i c) :: post).
+    rewrite !exec_prompts_app. apply in_or_app. right. apply in_or_app. right. left. reflexivity.
+  - rewrite Hpre. rewrite (i_open _ _ (Inv_reach l1)). assumption.
 Qed.
